@@ -58,6 +58,64 @@ static void sweep_msf(const V &a, V &r) {
     r.push_back(bad); r.push_back(first);
 }
 
+// ---- C12: gadget decomposition ----
+static void op_tgswparams(const V &a, V &r) {
+    TLweParams *tp = new_TLweParams(8, 1, 0., 0.25);
+    TGswParams *gp = new_TGswParams((int) a[0], (int) a[1], tp);
+    r.push_back(gp->Bg); r.push_back(gp->halfBg); r.push_back(gp->maskMod); r.push_back(gp->offset);
+    for (int i = 0; i < gp->l; i++) r.push_back(gp->h[i]);
+    delete_TGswParams(gp); delete_TLweParams(tp);
+}
+static void op_decomp(const V &a, V &r) {   // l B N x1..xN
+    int l = a[0], B = a[1], N = a[2];
+    TLweParams *tp = new_TLweParams(N, 1, 0., 0.25);
+    TGswParams *gp = new_TGswParams(l, B, tp);
+    TorusPolynomial *in = new_TorusPolynomial(N);
+    IntPolynomial *res = new_IntPolynomial_array(l, N);
+    for (int j = 0; j < N; j++) in->coefsT[j] = (int32_t) a[3 + j];
+    tGswTorus32PolynomialDecompH(res, in, gp);
+    for (int p = 0; p < l; p++) for (int j = 0; j < N; j++) r.push_back(res[p].coefs[j]);
+    for (int j = 0; j < N; j++) r.push_back(in->coefsT[j]);
+    delete_IntPolynomial_array(l, res); delete_TorusPolynomial(in); delete_TGswParams(gp); delete_TLweParams(tp);
+}
+static void op_tlwedecomp(const V &a, V &r) {   // l B k N coefs((k+1)*N)
+    int l = a[0], B = a[1], k = a[2], N = a[3];
+    TLweParams *tp = new_TLweParams(N, k, 0., 0.25);
+    TGswParams *gp = new_TGswParams(l, B, tp);
+    TLweSample *in = new_TLweSample(tp);
+    IntPolynomial *res = new_IntPolynomial_array((k + 1) * l, N);
+    for (int i = 0; i <= k; i++) for (int j = 0; j < N; j++) in->a[i].coefsT[j] = (int32_t) a[4 + i * N + j];
+    tGswTLweDecompH(res, in, gp);
+    for (int p = 0; p < (k + 1) * l; p++) for (int j = 0; j < N; j++) r.push_back(res[p].coefs[j]);
+    for (int i = 0; i <= k; i++) for (int j = 0; j < N; j++) r.push_back(in->a[i].coefsT[j]);
+    delete_IntPolynomial_array((k + 1) * l, res); delete_TLweSample(in); delete_TGswParams(gp); delete_TLweParams(tp);
+}
+// exhaustive sweep over x in [lo,hi): range, recomposition error in [0,2^(32-lB)), input restored.
+// returns (failures, first failing x)
+static void op_decompsweep(const V &a, V &r) {  // l B lo hi
+    int l = a[0], B = a[1]; ll lo = a[2], hi = a[3];
+    const int N = 1024;
+    TLweParams *tp = new_TLweParams(N, 1, 0., 0.25);
+    TGswParams *gp = new_TGswParams(l, B, tp);
+    TorusPolynomial *in = new_TorusPolynomial(N);
+    IntPolynomial *res = new_IntPolynomial_array(l, N);
+    ll bad = 0, first = 0; const ll half = 1LL << (B - 1); const ll errmax = 1LL << (32 - l * B);
+    for (ll x0 = lo; x0 < hi; x0 += N) {
+        for (int j = 0; j < N; j++) in->coefsT[j] = (int32_t) (uint32_t) (x0 + j);
+        tGswTorus32PolynomialDecompH(res, in, gp);
+        for (int j = 0; j < N && x0 + j < hi; j++) {
+            bool ok = in->coefsT[j] == (int32_t) (uint32_t) (x0 + j);
+            ll rec = 0;
+            for (int p = 0; p < l; p++) { ll d = res[p].coefs[j]; if (d < -half || d >= half) ok = false; rec += d * (1LL << (32 - (p + 1) * B)); }
+            ll err = (ll) ((uint32_t) (x0 + j) - (uint32_t) rec);   // x - recomposition mod 2^32
+            if (err < 0 || err >= errmax) ok = false;
+            if (!ok) { if (!bad) first = x0 + j; bad++; }
+        }
+    }
+    r.push_back(bad); r.push_back(first);
+    delete_IntPolynomial_array(l, res); delete_TorusPolynomial(in); delete_TGswParams(gp); delete_TLweParams(tp);
+}
+
 int main(int argc, char **argv) {
     std::string line;
     while (std::getline(std::cin, line)) {
@@ -76,6 +134,10 @@ int main(int argc, char **argv) {
         else if (op == "dtotp") { double d = ldexp((double) a[0], -(int) a[1]);
             r.push_back(dtot32(d)); r.push_back(dtot32(d + (double) a[2])); }
         else if (op == "msfsweep") sweep_msf(a, r);
+        else if (op == "decomp") op_decomp(a, r);
+        else if (op == "tlwedecomp") op_tlwedecomp(a, r);
+        else if (op == "tgswparams") op_tgswparams(a, r);
+        else if (op == "decompsweep") op_decompsweep(a, r);
         else { puts("NOOP"); fflush(stdout); continue; }
         out(r);
     }
